@@ -116,6 +116,24 @@ def impl(job):
     return out
 
 
+GROUP_CFG = None
+
+
+def gen_group_job(rng, i):
+    """a named-paths group in which one member rewrites its own lines/headers (append / reset_headers / replace / collect projection) between
+    members that do not: the read-only members must still see the file as it is, in this run and in a later run"""
+    rows, _, _ = gen_file(rng)
+    while not any(rows):
+        rows, _, _ = gen_file(rng)
+    rows = [[c.replace("\x00", "0") for c in r] for r in rows]
+    w = rng.choice(['append("extra", "x")', 'append("extra", count())', 'reset_headers()', 'collect(0)', 'replace(0, "zz")', 'yes()'])
+    members = ['~id: ro0~ $[*][ yes() ]', f'~id: w~ $[*][ {w} ]', '~id: ro1~ $[*][ yes() ]']
+    rng.shuffle(members)
+    runs = [{"method": "collect_paths", "pathsname": "g", "filename": "f", "new_instance": False},
+            {"method": rng.choice(["collect_paths", "collect_by_line"]), "pathsname": "g", "filename": "f", "new_instance": rng.random() < 0.5}]
+    return {"id": i, "files": {"f": rows}, "groups": {"g": members}, "runs": runs, "policy": ["collect", "print"], "rewriter": w}
+
+
 def rows_lit(rows):
     return listlit(rows, lambda r: listlit(r, ulit))
 
@@ -162,6 +180,35 @@ def run(ctx):
         i = [i for i in agree_bad if i not in empty][0]
         ctx.violation("correspondence", {"what": "correspondence Csv/CsvModel.v + Data/DataModel.v vs csv.writer / CsvPath.collect / headers no longer checks (Harness/C06Cmp.c06_agree); theorems C06_* are about the model only",
                                          "disagreeing_case": describe(jobs[i], res[i])}, no_input=True)
+    # named-paths groups: members that do not rewrite still see the file as it is, next to a member that does
+    import io
+    import groups
+    gjobs = [gen_group_job(rng, i) for i in range(40 if ctx.tier == "quick" else 1200)]
+    gres = pmap(ctx, groups.run_history, gjobs, chunksize=2)
+    glits, gsrc, gfail = [], [], []
+    for j, r in zip(gjobs, gres):
+        if r["setup_exc"]:
+            gfail.append({"kind": "setting up the group raised", "job": {k: j[k] for k in ("files", "groups")}, "exc": r["setup_exc"]})
+            continue
+        buf = io.StringIO(newline="")
+        csv.writer(buf).writerows(j["files"]["f"])
+        for ri, o in enumerate(r["runs"]):
+            if o["exc"]:
+                gfail.append({"kind": "the group run raised", "group": j["groups"]["g"], "rows": j["files"]["f"], "run": ri, "exc": o["exc"]})
+                continue
+            for m in o["members"]:
+                if not str(m["identity"]).startswith("ro") or not isinstance(m["lines"], list):
+                    continue
+                fake = {"text": buf.getvalue(), "exc": None, "lines": m["lines"], "headers": m["headers"], "vals": []}
+                glits.append(case_lit((j["files"]["f"], ",", '"', [], None), fake))
+                gsrc.append((j, ri, o["method"], m))
+    gbad = sorted(coq_bad(ctx, "c06g", "Csv.CsvModel Data.DataModel Harness.C06Cmp", "c06case", glits, ["c06_spec"], chunk=250)["c06_spec"]) if glits else []
+    for i in gbad:
+        j, ri, meth, m = gsrc[i]
+        gfail.append({"kind": "a member that rewrites nothing did not get the file's records / first-record headers in a named-paths run where another member rewrites its own",
+                      "group": j["groups"]["g"], "rows": j["files"]["f"], "run": ri, "method": meth, "member": m["identity"], "headers_seen": m["headers"], "lines_seen": m["lines"][:4]})
+    if gfail:
+        ctx.violation("group", {"what": gfail[0]["kind"], "case": gfail[0], "more": gfail[1:3], "failures": len(gfail)})
     nontriv = {repr(j[:3]) for j, o in zip(jobs, res) if not o["exc"] and len(o["lines"]) >= 2 and
                any(any(ch in c for ch in (j[1], j[2], "\n")) for r in j[0] for c in r)}
     ctx.coverage.update({
@@ -171,6 +218,9 @@ def run(ctx):
                 "per probe; 60% of files have an identifier-like (decorated) header row so that #name probes exist. Non-trivial = distinct file with >= 2 returned lines and a cell "
                 "containing the delimiter, the quote char or LF.",
         "samples": [describe(jobs[0], res[0]), describe(jobs[len(jobs) // 2], res[len(jobs) // 2])],
+        "group_runs": sum(len(r["runs"]) for r in gres), "group_member_comparisons": len(glits),
+        "group_rule": "named-paths groups of two read-only members and one member that rewrites its own lines/headers (append, reset_headers, collect(0), replace) in random order, run twice "
+                      "(serial, then serial or breadth-first, same or new CsvPaths): the read-only members' lines and headers against the file by c06_spec",
         "traces_validated_against_impl": len(jobs) - len(agree_bad),
         "correspondence": f"model == implementation on {len(jobs) - len(agree_bad)} of {len(jobs)} files",
         "spec_failures": len(spec_bad), "empty_file_cases": sum(1 for j in jobs if not any(j[0])),
